@@ -180,6 +180,10 @@ NOTES = {
                "> 32767 live Cleanables on one Cleaner, release build: the cell wraps and clears the accessible flag: clean() does nothing, metadata freed early"),
     "C10-M6": ("Weak::upgrade builds the Cc before incrementing (same edit as C04-M2 / C16-M1)",
                "a cleaning action upgrades a Weak to an owner already at 16382 strong handles"),
+    "C06-M5": ("finalize_inner: set_finalized(true) moved after the finalizer call (same edit as C07-M5)",
+               "collector-run finalizer resurrects its object and panics; the object dies again later: second finalization"),
+    "C06-M6": ("Cc::drop: the restoring finalizing guard replaced by set_finalizing(true) .. set_finalizing(false)",
+               "a finalizer that first releases the last Cc of a not-yet-finalized object (nested Cc::drop clears the caller's flag) and then creates / clones / resurrects something: objects not born finalized, is_tracing() true in the finalization phase"),
 }
 
 
